@@ -226,6 +226,15 @@ def check(rep, F, tier, replay=None):
             rep.violation("WIT-stored", key, "%s hands its witness only to `entry(voter).or_insert(..)`: when the voter already has an entry (a second vote of the same voter) the new witness - its script, datum, redeemer, declared signers, reference input - is silently dropped while the call returns Ok" % key, {})
     from ruleutil import datum_rules
     datum_rules(rep, F)
+    # SIGNER-set: the signer / witness sets the estimate counts keep their vector and membership index in step
+    import p_c16 as _c16
+    sets_ = _c16.discover_sets(F)
+    elems_ = {v["elem"] for v in sets_.values() if v["elem"].rsplit("::", 1)[-1] in ("Ed25519KeyHash", "Vkeywitness", "BootstrapWitness")}
+    if len(elems_) < 3:
+        rep.lost("signer / witness set types not found (%s)" % sorted(elems_))
+    else:
+        np_ = _c16.set_push_rules(rep, F, sets_, elems_)  # SET-push / SET-mut / SET-build: len() of these sets is what count_needed_vkeys and the fake witness set are sized from
+        rep.floor("guarded pushes into signer / witness set vectors", 4, np_)
     # BOOT-set: one fake bootstrap witness per distinct Byron address over inputs AND collateral
     rep.rule("BOOT-set", "fake_full_tx merges the Byron addresses of inputs and collateral in an ordered set before counting / creating fake bootstrap witnesses (an address used for both is witnessed once)")
     fid = find_fn(rep, F, "builders::tx_builder::fake_full_tx")
